@@ -73,3 +73,7 @@ PROPS = {
    files=['src/intrin_portable.h', 'src/instructions_portable.cpp', 'src/randomx.cpp', 'src/blake2/endian.h', 'src/bytecode_machine.hpp', 'src/soft_aes.cpp'],
    explanation='TODO', trusted=[], outside=[]),
 }
+
+from lemmas.explanations import E as _E
+for _k, _v in _E.items():
+    if _k in PROPS: PROPS[_k]['explanation'] = _v
